@@ -30,13 +30,13 @@ def run_case(args):
 def trace_lines(d):
     """Event log of one run, filtered to what ThreadsTrace explains."""
     out = [{"p": "-", "ev": "Reset", "detail": ""}]
-    prev = None
+    prev = {}          # previous event PER THREAD (events of other threads may be logged in between)
     for e in d["events"]:
         ev, p = e["ev"], e["p"]
         if ev in ("Spawned", "JoinStart", "Exit") or (p == "writer" and ev == "Start"):
             continue
-        if p == "writer" and ev == "WHandled" and prev == ("writer", "WRecvAbort"):
-            prev = (p, ev)
+        if p == "writer" and ev == "WHandled" and prev.get(p) == "WRecvAbort":
+            prev[p] = ev       # the loop's "handled" mark after the abort message: not a data message
             continue
         x = {"p": p, "ev": ev, "detail": e["detail"]}
         if ev == "Fail":
@@ -47,7 +47,7 @@ def trace_lines(d):
             if x["kind"] == "disconnected":
                 x["ev"] = "MainRecvDisconnected"
         out.append(x)
-        prev = (p, ev)
+        prev[p] = ev
     return out
 
 
